@@ -37,10 +37,11 @@ Definition dummy_species : species := mkSpecies [] 0 0 [] None [] [].
 Definition dummy_req : request := mkReq [] [] None [] dummy_species None.
 Definition req (U : list request) (j : nat) : request := nth j U dummy_req.
 
-(* an operation as sent by the harness: (request index, outcome, clean-up mode, additional files) *)
-Definition hop := (nat * outcome * cmode * list str)%type.
+(* an operation as sent by the harness: (request index, outcome, clean-up mode, additional files,
+   the name a re-used Calculation object already carried) *)
+Definition hop := (nat * outcome * cmode * list str * option str)%type.
 Definition to_op (U : list request) (h : hop) : op :=
-  let '(j, oc, cm, aux) := h in mkOp (req U j) oc cm aux.
+  let '(j, oc, cm, aux, start) := h in mkOp (req U j) oc cm aux start.
 (* either kind of calculation: external program, or optimisation by autodE's own optimiser *)
 Inductive hgop := HExt (h : hop) | HOpt (j : nat).
 Definition to_gop (U : list request) (h : hgop) : gop :=
